@@ -241,7 +241,9 @@ fn cmd_meta_cases(m: &HashMap<String, String>) -> i32 {
     let out = m.get("out").expect("--out");
     let f = std::fs::File::create(out).expect("create");
     let mut w = BufWriter::new(f);
-    if m.contains_key("concurrent") {
+    if m.contains_key("race") {
+        metarig::run_race(&mut w, geti(m, "seed", 1u64), geti(m, "count", 30usize));
+    } else if m.contains_key("concurrent") {
         metarig::run_concurrent(&mut w, geti(m, "seed", 1u64), geti(m, "count", 50usize));
     } else {
         let rt = paused_rt();
